@@ -437,6 +437,15 @@ class Run(object):
                 mech = 'backfilling-early-bound-task-inconsistent'
             self.viol(mech, e[2])
 
+        # no fault is injected into these histories: the scheduler has no
+        # reason to fail a task - a task without an eligible pilot waits
+        for uid in sorted(self.failed):
+            res.count('scheduler_failures_seen')
+            self.viol('task-failed-instead-of-waiting',
+                      '%s was advanced to FAILED by the scheduler (at %s); '
+                      'pilots added: %s' % (uid, self.failed[uid][:1], added))
+            break
+
         for uid, (named, cores) in self.tasks.items():
             n = len(self.forward.get(uid, [])) + len(self.failed.get(uid, []))
             if n > 1 and len(self.forward.get(uid, [])) < 2:
